@@ -1,5 +1,6 @@
 //! `wfh <family> <seed> <n> <outdir>`: runs the real winterfell crates on generated inputs.
 //! Writes `<outdir>/<family>.qa` (Q/A line pairs, see `out.rs`) and `<outdir>/<family>.stats.json`.
+mod c10;
 mod c26;
 mod c27;
 mod out;
@@ -20,6 +21,7 @@ fn main() {
     let mut rng = rng::Rng::new(seed ^ fam.bytes().fold(0u64, |a, b| a.wrapping_mul(131).wrapping_add(b as u64)));
     let mut out = out::Out::new(&format!("{outdir}/{fam}.qa"));
     match fam {
+        "c10" => c10::run(&mut rng, &mut out, n),
         "c26" => c26::run(&mut rng, &mut out, n),
         "c27" => c27::run(&mut rng, &mut out, n),
         "c27x" => c27::run_exhaustive(&mut out, n),
